@@ -51,6 +51,7 @@ type omCase struct {
 	Piece   int        `json:"piece,omitempty"`
 	Between string     `json:"between,omitempty"`
 	Yield   bool       `json:"yield_between_opens,omitempty"`
+	Unwrap  string     `json:"unwrap"` // what the UnwrapKeyFn callbacks do: "plain" (return at once) | "yield" (runtime.Gosched: goroutines of streams opened earlier run in the middle of this Decrypt)
 	Procs   int        `json:"gomaxprocs,omitempty"` // replay only: the setting the failure was seen under (0 = default)
 }
 
@@ -87,7 +88,7 @@ var omChunks = []int{1, 7, 64, 200, 511, 512, 513, 4096, 65536, 70000}
 func omPipe(rng *lib.Rand, n int, i int) wl.Pipe {
 	p := wl.GenPipe(rng, true)
 	p.PlainLen = n
-	p.SlowUs, p.Chunk = 0, 0
+	p.SlowUs, p.Chunk = -1, 0
 	p.KeyName = fmt.Sprintf("key-%d", i)
 	return p
 }
@@ -108,10 +109,15 @@ func genOpenMany(rng *lib.Rand, tier string, search bool) []omCase {
 		}
 		return c
 	}
-	// directed, smallest first: two short documents, every reader kind, both orders
-	for _, rd := range omReaders {
-		for _, ord := range perms(2) {
-			cases = append(cases, mk([]int{100, 300}, []string{rd}, ord, "whole"))
+	// directed, smallest first: two short documents, every reader kind, both orders, unwrap
+	// callbacks that return at once / that yield the processor
+	for _, uw := range []string{"plain", "yield"} {
+		for _, rd := range omReaders {
+			for _, ord := range perms(2) {
+				c := mk([]int{100, 300}, []string{rd}, ord, "whole")
+				c.setUnwrap(uw)
+				cases = append(cases, c)
+			}
 		}
 	}
 	// every drain order of three streams; lengths around the segment size; mixed readers
@@ -173,13 +179,32 @@ func genOpenMany(rng *lib.Rand, tier string, search bool) []omCase {
 		c.Yield = rng.Intn(5) == 0
 		cases = append(cases, c)
 	}
+	for i := range cases {
+		if cases[i].Unwrap == "" {
+			cases[i].setUnwrap([]string{"plain", "yield"}[i%2])
+		}
+	}
 	return cases
+}
+
+func (c *omCase) setUnwrap(kind string) {
+	c.Unwrap = kind
+	for i := range c.Streams {
+		c.Streams[i].Pipe.SlowUs = -1
+		if kind == "yield" {
+			c.Streams[i].Pipe.SlowUs = 0
+		}
+	}
 }
 
 var reCaseLine = regexp.MustCompile(`CASE (\d+)\s*$`)
 
 // runOpenMany runs the cases in the child under the given GOMAXPROCS ("" = default).
 func runOpenMany(f lib.Flags, res *lib.Result, drv *lib.Drv, bin string, cases []omCase, procs string, reps int, tag string) {
+	runOpenManyEnv(f, res, drv, bin, cases, procs, reps, tag, false)
+}
+
+func runOpenManyEnv(f lib.Flags, res *lib.Result, drv *lib.Drv, bin string, cases []omCase, procs string, reps int, tag string, race bool) {
 	work := f.Work
 	if work == "" {
 		work = os.TempDir()
@@ -192,6 +217,9 @@ func runOpenMany(f lib.Flags, res *lib.Result, drv *lib.Drv, bin string, cases [
 	env := childEnv()
 	if procs != "" {
 		env = append(env, "GOMAXPROCS="+procs)
+	}
+	if race {
+		env = append(env, "GORACE=halt_on_error=0 exitcode=0")
 	}
 	_, se, err := runChild(bin, env, 15*time.Minute, "--cases", cf, "--out", of, "--reps", strconv.Itoa(reps))
 	seen := 0
@@ -230,6 +258,13 @@ func runOpenMany(f lib.Flags, res *lib.Result, drv *lib.Drv, bin string, cases [
 		res.Violate(findOpenMany, fmt.Sprintf("the process holding several open streams died / hangs (GOMAXPROCS=%s, %v) in case %d: %s", orDefault(procs), err, idx, tail(stripCaseLines(se), 900)), c)
 	}
 	res.Distribution["openmany:results-gomaxprocs="+orDefault(procs)] += seen
+	if race {
+		n := strings.Count(se, "WARNING: DATA RACE")
+		res.Distribution["openmany-race:reports"] += n
+		if n > 0 {
+			res.Violate("data-race-reported", fmt.Sprintf("race detector, several streams open at once (GOMAXPROCS=%s; first 1500 bytes): %s", orDefault(procs), tail2(stripCaseLines(se), 1500)), map[string]any{"kind": "openmany"})
+		}
+	}
 }
 
 func orDefault(s string) string {
@@ -255,6 +290,7 @@ func judgeOpenMany(res *lib.Result, r omResult, procs string) {
 	res.Count("openmany:"+string(key), len(c.Streams) >= 2 && r.Note == "")
 	res.Hit(fmt.Sprintf("openmany:streams=%d", len(c.Streams)))
 	res.Hit("openmany:drain=" + c.Drain)
+	res.Hit("openmany:unwrap=" + c.Unwrap)
 	res.Hit("openmany:gomaxprocs=" + orDefault(procs))
 	if c.Between != "" {
 		res.Hit("openmany:between=" + c.Between)
@@ -305,12 +341,13 @@ func judgeOpenMany(res *lib.Result, r omResult, procs string) {
 // modelOpenMany: T2 for the "opened first, drained later" schedule. Under GOMAXPROCS=1 the real
 // run IS the model's `openAllThenDrain` (opens back to back, the pool handing out the buffer Put
 // last, goroutines run when the drains start, in drain order) for cases made of Decrypt streams
-// over prepared documents only, nothing in between, drained one after the other. The model gets
+// over prepared documents only, nothing in between, unwrap callbacks without a scheduling point,
+// drained one after the other. The model gets
 // every document's header + first 200 body bytes and each reader's chunk size; its answer (which
 // streams observe something else than alone) must be the implementation's.
 func modelOpenMany(res *lib.Result, drv *lib.Drv, r omResult) {
 	c := r.Case
-	if drv == nil || r.Note != "" || c.Between != "" || c.Yield || c.Drain != "whole" || len(r.DocCut) != len(c.Streams) {
+	if drv == nil || r.Note != "" || c.Between != "" || c.Yield || c.Unwrap != "plain" || c.Drain != "whole" || len(r.DocCut) != len(c.Streams) {
 		return
 	}
 	var docs, chunks, order, impl []string
@@ -368,6 +405,20 @@ func checkOpenMany(f lib.Flags, res *lib.Result, drv *lib.Drv, rng *lib.Rand) {
 		res.Sample(cases[0])
 	}
 	res.Note(fmt.Sprintf("open-many family: %d cases × GOMAXPROCS {1, default} in %.1fs", len(cases), time.Since(t0).Seconds()))
+	if f.Tier == "thorough" {
+		// the same schedules under the race detector (supporting search: absence decides nothing)
+		rbin, err := buildChild(f, "openmany", true)
+		if err != nil {
+			res.Note("open-many -race variant NOT run: " + err.Error())
+			return
+		}
+		k := len(cases)
+		if k > 80 {
+			k = 80
+		}
+		runOpenManyEnv(f, res, nil, rbin, cases[:k], "1", 1, "race1", true)
+		runOpenManyEnv(f, res, nil, rbin, cases[:k], "", 1, "raced", true)
+	}
 }
 
 func replayOpenMany(f lib.Flags, res *lib.Result, drv *lib.Drv, raw json.RawMessage) {
